@@ -5,7 +5,7 @@
 //   c03_options table  OUT
 //        measures Extract(T, token) for T in int/unsigned/string/enum and every token of the
 //        global table with a PLAIN std::istringstream >> (not through fcppt::options)
-//   c03_options record OUT MAXLEN MAXLEN_CHEAP RANDOM_N RANDOM_LEN SEED PART PARTS
+//   c03_options record OUT MAXLEN MAXLEN_CHEAP RANDOM_N RANDOM_LEN SEED PART PARTS RUNLEN
 //   c03_options replay SCRIPT OUT       SCRIPT: ndjson lines {"s":shape,"a":[token ids]}
 #include "c03_options.hpp"
 
@@ -60,6 +60,29 @@ void driver::end(std::string const &_rest)
 {
   std::fputs(_rest.c_str(), vj::out_file());
   std::fputc('\n', vj::out_file());
+}
+
+std::string driver::state_json(fcppt::options::state const &_state) const
+{
+  // remaining arguments as token ids (every argument the harness passes is a token of the table)
+  std::string s{"["};
+  bool first{true};
+  for (fcppt::string const &arg : _state.args())
+  {
+    int id{0};
+    for (std::size_t i = 0; i < tokens().size(); ++i)
+    {
+      if (tokens()[i] == arg)
+      {
+        id = static_cast<int>(i + 1);
+        break;
+      }
+    }
+    if (!first) s += ',';
+    first = false;
+    s += std::to_string(id);
+  }
+  return s + "]";
 }
 
 void driver::run_all()
@@ -128,7 +151,9 @@ void describe()
                  .kv("s", info.id)
                  .kv("al", info.alphabet)
                  .kv("ex", info.extra)
-                 .kv("help", info.help));
+                 .kv("help", info.help)
+                 .raw("hshort", std::string{info.help_short}.empty() ? std::string{"[]"} : "[" + vj::cps(std::string{info.help_short}) + "]")
+                 .raw("hlong", vj::cps(std::string{info.help_long})));
   }
 }
 }
@@ -156,7 +181,7 @@ int main(int argc, char **argv)
     return 0;
   }
   c03::plan plan{};
-  if (mode == "record" && argc == 10)
+  if (mode == "record" && argc == 11)
   {
     vj::open(argv[2]);
     plan.max_len = std::atoi(argv[3]);
@@ -166,6 +191,7 @@ int main(int argc, char **argv)
     plan.seed = std::strtoull(argv[7], nullptr, 10);
     plan.part = std::atoi(argv[8]);
     plan.parts = std::atoi(argv[9]);
+    plan.run_len = std::atoi(argv[10]);
     if (plan.part == 0)
     {
       c03::describe();
